@@ -203,8 +203,11 @@ def gen_lexeme(rnd):
         q = rnd.choice("\"'")
         other = "'" if q == '"' else '"'
         alpha = "abc xyz019_+-*/;.#@$%{}()[]<>\t" + other + "πé"
+        # escapes: an escaped backslash (also as the LAST thing before the closing quote), the escaped own quote, and
+        # backslash + ordinary character; the string ends at the first unescaped own quote
+        esc = ["\\\\", "\\" + q, "\\n", "\\t", "\\x41", "\\\\\\\\", "\\\\\\" + q]
         while True:
-            body = "".join(rnd.choice(alpha) for _ in range(rnd.randint(1, 10)))
+            body = "".join(rnd.choice(esc) if rnd.random() < 0.2 else rnd.choice(alpha) for _ in range(rnd.randint(1, 10)))
             if any(ch not in "01_" for ch in body):
                 break
         return {"cls": "str", "text": q + body + q, "kind": "STRING"}
